@@ -139,7 +139,13 @@ Definition r0_check_sym (g : nat * nat) : bool :=
 (* ====================================================================================== *)
 (* the checked domains: (n, number of demes)                                              *)
 (* ====================================================================================== *)
-Definition perm_groups1 : list (nat * nat) := [(2,2); (3,2); (4,2); (5,2); (2,3); (3,3); (4,3)].
-Definition perm_groups2 : list (nat * nat) := [(2,2); (3,2)].
-Definition marginal_groups : list (nat * nat) := [(2,1); (3,1); (4,1); (5,1); (6,1); (2,2); (3,2); (4,2)].
-Definition r0_groups : list (nat * nat) := [(2,1); (3,1); (4,1); (5,1); (6,1); (2,2); (3,2); (4,2)].
+(* one locus: SpaceFacts.v has 2 and 3 demes with 2 <= n <= 4 *)
+Definition perm_groups1 : list (nat * nat) :=
+  [(2,2); (3,2); (4,2); (5,2); (6,2); (2,3); (3,3); (4,3); (2,4)].
+(* two loci: SpaceFacts.v has 2 demes with 2 <= n <= 3 *)
+Definition perm_groups2 : list (nat * nat) := [(2,2); (3,2); (4,2); (2,3)].
+(* SpaceFacts.v has 1 deme 2 <= n <= 6, 2 demes 2 <= n <= 4 *)
+Definition marginal_groups : list (nat * nat) :=
+  [(2,1); (3,1); (4,1); (5,1); (6,1); (7,1); (8,1); (2,2); (3,2); (4,2); (5,2); (2,3); (3,3)].
+Definition r0_groups : list (nat * nat) :=
+  [(2,1); (3,1); (4,1); (5,1); (6,1); (7,1); (8,1); (2,2); (3,2); (4,2); (5,2); (2,3); (3,3)].
